@@ -167,6 +167,10 @@ def run(ctx):
             if note and counts['R-ALG'] % 5 == 1:
                 ctx.sample({'config': cfg, 'fn': name, 'certificate': note})
         ctx.floor('quaternion algebra instances (%s)' % cfg, sum(counts.values()), 30)
+        # Sum / Product over iterators: left folds of + from ZERO and of * from the identity (generic bodies, rules/fold.py)
+        import fold
+        nfold = fold.check_folds(ctx, cfg, F, H, lambda tn: 'float' if tn in ('Quat', 'DQuat') else None, done, product_unit=lambda tn, n: [0, 0, 0, 1] if n == 4 else None)
+        ctx.floor('Sum / Product impls (%s)' % cfg, nfold, 8)
         for k, v in sorted(counts.items()):
             ctx.count('%s:%s' % (k, cfg), v)
     ctx.extra['exhaustive'] = True
